@@ -547,13 +547,16 @@ func vfSEEmptyField(b []byte, fld string) []byte {
 	return vfSEAssemble(e.MessageHeaders, e.Message, e.Nonce)
 }
 
-var vfSESizesThorough = []int{0, 1, 2, 15, 16, 17, 63, 64, 65, 1024, 4096, 16384, 65536}
+var vfSESizesThorough = []int{0, 1, 2, 15, 16, 17, 63, 64, 65, 1024, 4096, 16384, 65530, 65531, 65535, 65536}
+
+// quick tier: the small sizes and both ends of the property's "1 byte .. 64 KiB"
+var vfSESizesQuick = []int{0, 1, 2, 15, 16, 17, 63, 64, 65, 1024, 65536, 65531}
 
 func vfSESize(i int) int {
 	if os.Getenv("VERIF_TIER") == "thorough" {
 		return vfSESizesThorough[i%len(vfSESizesThorough)]
 	}
-	return vfSizes[i%len(vfSizes)]
+	return vfSESizesQuick[i%len(vfSESizesQuick)]
 }
 
 // ---- the victim's side
@@ -1477,7 +1480,7 @@ func vfSEPoisonProbe(t testing.TB, rw *vfRWorld, sc vfScript) []map[string]any {
 	vfSEMust(err, "sign")
 	env, err := sealGroupEnvelope(w.g, protocoltypes.EventType_EventTypeContactAliasKeyAdded, ev, sig)
 	vfSEMust(err, "seal")
-	_, _, oerr := openGroupEnvelope(w.g, env)
+	_, _, oerr := vfOpenGroupEnvelope(w.g, env)
 	_, werr := w.ms(w.E).AddOperation(ctx, operation.NewOperation(nil, "ADD", env), nil)
 	heads := vfHeads(w.ms(w.E))
 	sync := func(from *MetadataStore) (bool, int) {
@@ -1510,7 +1513,7 @@ func vfSEPoisonProbe(t testing.TB, rw *vfRWorld, sc vfScript) []map[string]any {
 	vfSEMust(err, "sign")
 	genv, err := sealGroupEnvelope(w.g, protocoltypes.EventType_EventTypeAccountGroupJoined, gj, gsig)
 	vfSEMust(err, "seal")
-	_, _, gerr := openGroupEnvelope(w.g, genv)
+	_, _, gerr := vfOpenGroupEnvelope(w.g, genv)
 	_, _, gcrash := vfSEAppend(ctx, w.ms(w.E), genv)
 	out = append(out, map[string]any{"ev": "probe", "world": kind, "what": "AccountGroupJoined without group", "opens": gerr == nil, "writer_index_panic": gcrash})
 	out = append(out, map[string]any{"ev": "probe", "world": kind, "what": "ContactAliasKeyAdded with a 5-byte alias key", "opens": oerr == nil, "writer_err": errs(werr), "writer_heads": len(heads),
